@@ -12,6 +12,11 @@ a parameter `solve` (the driver plugs in `GMat.solve` = Gauss–Jordan inverse t
 proved to satisfy the contract whenever it returns: `Lemmas/GaussJordan.lean`);
 `scipy.signal.freqz(b, a, worN=n, whole)` = ratio of the two polynomials in `exp(-1j w_k)`,
 `w_k = k·(π or 2π)/n`; `scipy.signal.lfilter(b, a, v)` = direct-form recursion.
+
+Session 3: `autocovOpt` / `autocovAllLags` = the covariance helper with its keyword arguments
+(`debias`, `normalize`, `all_lags`; driver op `acopt`); `runCalls` = programs of `AR_est_LD` /
+`AR_est_YW` calls on ONE caller-owned `rxx` array (driver op `seq`; `Props`: `reuse_rxx_same_sigma`).
+Signals / sequences given as integer, float32, … arrays reach the model as their float64 values (exact).
 -/
 import Nitime.Model.ARBase
 import Nitime.Generated.FreqResponse
@@ -24,6 +29,23 @@ variable {K : Type} [Scalar K]
 /-- `utils.autocorr(x)[k]` for a length-`n` signal: `(1/n) Σ_m x[m+k]·conj x[m]` -/
 def autocorrDirect (x : Nat → K) (n k : Nat) : K :=
   sumRange (n - k) (fun m => x (m + k) *. conj (x m)) /. ofNat n
+
+/-- sample mean (`remove_bias`: `np.mean(x, axis)`) -/
+def meanSig (x : Nat → K) (n : Nat) : K := sumRange n x /. ofNat n
+
+/-- `utils.crosscov(x, x, debias=…, normalize=…)[k]`, `k ≥ 0`, for a 1-d signal — what `autocorr` (`debias=False`)
+and `autocov` (`debias=True` unless told otherwise) compute with their keyword arguments: `debias` subtracts the
+sample mean first, `normalize` divides the lagged sum by `n` -/
+def autocovOpt (debias normalize : Bool) (x : Nat → K) (n k : Nat) : K :=
+  let m := if debias then meanSig x n else zero
+  let s := sumRange (n - k) (fun t => (x (t + k) -. m) *. conj (x t -. m))
+  if normalize then s /. ofNat n else s
+
+/-- entry `j` of the `all_lags=True` output (length `2n − 1`, lag `j − (n−1)`): the negative lags are the
+conjugates of the positive ones -/
+def autocovAllLags (debias normalize : Bool) (x : Nat → K) (n j : Nat) : K :=
+  if n - 1 ≤ j then autocovOpt debias normalize x n (j - (n - 1))
+  else conj (autocovOpt debias normalize x n (n - 1 - j))
 
 /-! ### AR_est_LD -/
 
@@ -78,6 +100,43 @@ def arYW (solve : List (List K) → List K → List K) (r : Nat → K) (order : 
   -- sigma_v = r_m[0].real - np.dot(r_m[1:].conj(), ak).real
   let sigma := re (r 0) -. re (sumRange order fun k => conj (r (k + 1)) *. ak.getD k zero)
   (ak, sigma)
+
+/-! ### one caller-owned `rxx` array handed to several estimator calls
+
+`AR_est_LD` / `AR_est_YW` take `rxx[:order + 1]` (a VIEW of the caller's array) and only read it: a call returns a
+value computed from the array contents and leaves the contents as they were.  `runCallsWith post` threads the array
+through a program of calls; the code's `post` is `callPost` (identity).  `Props/C10.lean` proves that every call of
+every program then returns what it returns on the original array, and that all innovation variances of a program
+coincide; the counter-model there is an `AR_est_LD` that normalises the view in place. -/
+
+inductive EstCall where
+  | LD
+  | YW
+  deriving Repr, DecidableEq
+
+/-- the caller's array as the estimators index it -/
+def arrFn (a : List K) : Nat → K := fun k => a.getD k zero
+
+/-- what a call returns, given the array contents -/
+def callOut (solve : List (List K) → List K → List K) (p : Nat) (c : EstCall) (a : List K) : List K × K :=
+  match c with
+  | .LD => arLD (arrFn a) p
+  | .YW => arYW solve (arrFn a) p
+
+/-- what a call leaves in the caller's array: both estimators only read the slice -/
+def callPost (_c : EstCall) (a : List K) : List K := a
+
+/-- a program of calls on ONE array: the outputs in call order, and the array afterwards -/
+def runCallsWith (post : EstCall → List K → List K) (solve : List (List K) → List K → List K) (p : Nat) :
+    List EstCall → List K → List (List K × K) × List K
+  | [], a => ([], a)
+  | c :: cs, a =>
+    let r := runCallsWith post solve p cs (post c a)
+    (callOut solve p c a :: r.1, r.2)
+
+def runCalls (solve : List (List K) → List K → List K) (p : Nat) (cs : List EstCall) (a : List K) :
+    List (List K × K) × List K :=
+  runCallsWith callPost solve p cs a
 
 /-! ### AR_psd / freq_response -/
 
@@ -249,6 +308,20 @@ def handle (args : List String) : String :=
     | _, _ => "bad-op"
   | ["autocorr", nl, xs] => match nl.toNat?, parseCList? xs with
     | some nl, some x => "ok " ++ showCList ((acLags x (nl - 1)).take nl)
+    | _, _ => "bad-op"
+  | ["acopt", deb, nrm, alll, nl, xs] => match nl.toNat?, parseCList? xs with
+    | some nl, some x =>
+      let f := fnOfK x
+      let n := x.length
+      if alll = "1" then "ok " ++ showCList ((List.range (2 * n - 1)).map fun j => autocovAllLags (deb = "1") (nrm = "1") f n j)
+      else "ok " ++ showCList ((List.range nl).map fun k => autocovOpt (deb = "1") (nrm = "1") f n k)
+    | _, _ => "bad-op"
+  | ["seq", o, calls, rs] => match o.toNat?, parseCList? rs with
+    | some o, some r =>
+      if o = 0 ∨ r.length < o + 1 then "err IndexError" else
+      let cs := calls.toList.map fun ch => if ch = 'L' then EstCall.LD else EstCall.YW
+      let res := runCalls solveCF o cs r
+      "ok " ++ " ".intercalate (res.1.map fun e => showCList e.1 ++ " " ++ showCList [e.2]) ++ " " ++ showCList res.2
     | _, _ => "bad-op"
   | ["ld", o, rs] => match o.toNat?, parseCList? rs with
     | some o, some r => if o = 0 ∨ r.length < o + 1 then "err IndexError" else showEst (arLD (fnOf r) o)
